@@ -97,8 +97,9 @@ type MapV struct {
 }
 
 type SymStr struct {
-	tag  string
-	args []Value
+	tag   string
+	args  []Value
+	parts []strPart
 }
 
 type iterV struct {
